@@ -108,6 +108,17 @@ def suite_unit(ctx, res, n):
         res.stat(o["op"])
         if r != m:
             res.add_tie_break(o["op"], o, m, r)
+        # the pixel advance (CBDT Advance) of ANY bitmap, square or not, matches the font advance max(width, round(H*w/h)) scaled to bitmap pixels
+        if o["op"] == "bitmap" and isinstance(r.get("width_px"), str):
+            c0 = {k: int(v) for k, v in o["config"].items()}
+            H0, w0, h0 = c0["ascender"] - c0["descender"], int(o["w"]), int(o["h"])
+            if H0 > 0 and h0 > 0:
+                adv_font = max(c0["width"], round(F(H0 * w0, h0)))
+                scaled = F(adv_font * h0, H0)
+                if abs(int(r["width_px"]) - scaled) > F(1, 2) + F(h0, 2 * H0) + F(1, 1000):
+                    res.add_cex("_width_in_pixels (the CBDT pixel advance) does not match the font advance scaled to bitmap pixels",
+                                {"call": "_width_in_pixels", "args": o, "impl": r["width_px"], "font_advance": adv_font, "scaled": float(scaled)},
+                                {"site": "bitmap-advance-px", "args": stable_hash(o)})
         # checker on the real result: placement bound
         if o["op"] == "bitmap" and isinstance(r.get("metrics"), list) and isinstance(r.get("ppem"), str):
             c = {k: int(v) for k, v in o["config"].items()}
